@@ -630,12 +630,26 @@ class Run:
         end = "limit"
         retries = op.get("retry", 0)  # keep using the same iterator after a (timeout) error
         errors = []
+        partner = None
+        if op.get("partner"):
+            # a second iterator on the same session, advanced by one item after every item of this one
+            # (think zip(walk_a, walk_b)): each walk must come out as if it ran alone
+            pm = op["partner"]
+            partner = iter(sess.getbulk(pm["oid"], pm["max_rep"]) if pm["method"] == "getbulk" else (sess.getnext(pm["oid"]) if pm["method"] == "getnext" else sess.fetch(pm["oid"])))
+            self.sim.count("probe.interleaved-iterators")
         while True:
             try:
                 for k, v in it:
                     items.append([k, norm(v)])
                     if len(items) >= limit:
                         break
+                    if partner is not None:
+                        try:
+                            next(partner)
+                        except HarnessError:
+                            raise
+                        except BaseException:  # noqa: BLE001
+                            partner = None
                 else:
                     end = "stop"
             except BaseException as e:  # noqa: BLE001
@@ -711,12 +725,24 @@ class Run:
         end = "limit"
         retries = op.get("retry", 0)
         errors = []
+        partner = None
+        if op.get("partner"):
+            pm = op["partner"]
+            partner = (sess.getbulk(pm["oid"], pm["max_rep"]) if pm["method"] == "getbulk" else (sess.getnext(pm["oid"]) if pm["method"] == "getnext" else sess.fetch(pm["oid"]))).__aiter__()
+            self.sim.count("probe.interleaved-iterators")
         while True:
             try:
                 async for k, v in it:
                     items.append([k, norm(v)])
                     if len(items) >= limit:
                         break
+                    if partner is not None:
+                        try:
+                            await partner.__anext__()
+                        except (HarnessError, asyncio.CancelledError):
+                            raise
+                        except BaseException:  # noqa: BLE001
+                            partner = None
                 else:
                     end = "stop"
             except BaseException as e:  # noqa: BLE001
